@@ -5,8 +5,10 @@ use serde_json::{json, Value};
 pub const NO_DATE: i64 = -2_000_000_000;
 
 /// A date is its day number (days since 0000-12-31); 0001-01-01 = 1.
+thread_local! { static IN_SCREEN: std::cell::Cell<bool> = std::cell::Cell::new(false); }
 pub fn dn(d: NaiveDate) -> i64 {
     let n = d.num_days_from_ce() as i64;
+    if IN_SCREEN.with(|f| f.get()) { return n; }          // building the offender's event projects dates again
     // Every date that passes through the projection is screened for INTERNAL consistency (a date carries redundant packed
     // information - year flags, ordinal, month/day - that an operation may leave inconsistent while the day number is right).
     // The screen is a filter only: a date that fails it is handed to TLC as a full `date` event of Trace_Calendar, which judges it.
@@ -20,7 +22,9 @@ pub fn dn(d: NaiveDate) -> i64 {
             && w1 <= n && n < w1 + 7 * 53 + 7 && iw.week() as i64 == (n - w1) / 7 + 1 && iw.week() <= 53
     }).unwrap_or(false);
     if !ok {
+        IN_SCREEN.with(|f| f.set(true));
         let e = crate::w::c01::date_event(d);
+        IN_SCREEN.with(|f| f.set(false));
         problem_ev("Trace_Calendar", e);
     }
     n
